@@ -106,6 +106,11 @@ pub struct Spec {
     /// run's own generator is built; nothing it returns is logged or compared
     #[serde(default)]
     pub pre_new: bool,
+    /// wall-clock seam (needs the clock shim, see /verif/shim): while an operation of the code under test
+    /// runs, every reading of the real clock (std Instant / SystemTime) is this many milliseconds later than
+    /// the one before; 0 = the real clock as it is
+    #[serde(default)]
+    pub wall_step_ms: u64,
 }
 
 #[derive(Clone, Debug, PartialEq)]
